@@ -1,10 +1,11 @@
-(* C03, layer H: a tree and its clones in one store.  Every history of Clone / ReplaceOrInsert / Delete / DeleteMin /
-   DeleteMax on any handles, started from the empty tree, keeps the family invariant (each handle stands for a
+(* C03, layer H: trees and their clones in one store, on one free list.  Every history of Clone / ReplaceOrInsert /
+   Delete / DeleteMin / DeleteMax / Clear(true|false) on any handles and of NewWithFreeList on the shared free list,
+   started from the empty tree with a free list of any size, keeps the family invariant (each handle stands for a
    functional tree satisfying the B-tree invariant; contexts distinct; a node owned by a handle's context occurs in
    no other handle's tree; freed and unallocated addresses are free), does on the functional values exactly what the
    functional model does handle by handle, and a write through one handle changes no other handle's value. *)
 From Coq Require Import ZArith List Lia Bool Sorting.Sorted.
-Require Import C03_Model C03_Spec C03_D C03_Tree C03_Hist C03_Cow C03_Heap C03_HeapLib C03_HeapIns C03_HeapRem C03_HeapTree.
+Require Import C03_Model C03_Spec C03_D C03_Tree C03_Hist C03_Cow C03_Heap C03_HeapLib C03_HeapIns C03_HeapRem C03_HeapTree C03_HeapClear.
 Import ListNotations.
 Open Scope nat_scope.
 
@@ -34,6 +35,8 @@ Definition f_step (deg : nat) (ts : list itree) (o : hop) : option (list itree *
   | HDel i r => match nth_error ts i with
                 | Some t => match itree_delete deg t r with Some (t', out) => Some (set_at ts i t', out) | None => None end
                 | None => None end
+  | HClear i _ => match nth_error ts i with Some _ => Some (set_at ts i iempty, None) | None => None end
+  | HNew => Some (ts ++ [iempty], None)
   end.
 
 (* ---------------- the family invariant ---------------- *)
@@ -51,7 +54,7 @@ Record winv (deg : nat) (w : world) (ts : list itree) : Prop := {
              In x (hfp (hp (wst w)) hj) -> hp (wst w) x = Some n -> own n <> hctx hi
 }.
 
-Lemma winv0 deg : winv deg world0 [iempty].
+Lemma winv_init deg k : winv deg (world_init k) [iempty].
 Proof.
   constructor; cbn.
   - split; [reflexivity|]. split; [intros a []|constructor].
@@ -62,6 +65,8 @@ Proof.
   - discriminate.
   - discriminate.
 Qed.
+Lemma winv0 deg : winv deg world0 [iempty].
+Proof. apply winv_init. Qed.
 
 (* what a write through context c leaves alone *)
 Lemma habs_frame c A h h' hd t : wr c A h h' -> habs h hd = Some t ->
@@ -138,7 +143,8 @@ Proof. reflexivity. Qed.
 Local Strategy opaque [IFUEL].
 
 Definition small_t (t : itree) : Prop := (ilen t < 2147483648)%Z.
-Definition target (o : hop) : nat := match o with HClone i | HIns i _ | HDel i _ => i end.
+(* the handle an operation goes through *)
+Definition target (o : hop) : option nat := match o with HClone i | HIns i _ | HDel i _ | HClear i _ => Some i | HNew => None end.
 
 Lemma habs_same h hd hd' : hroot hd' = hroot hd -> hlen hd' = hlen hd -> habs h hd' = habs h hd /\ hfp h hd' = hfp h hd.
 Proof. intros E1 E2. unfold habs, hfp. rewrite E1, E2. auto. Qed.
@@ -151,11 +157,11 @@ Qed.
 Theorem w_step_sim deg : 2 <= deg -> forall w ts o ts' out, winv deg w ts ->
   f_step deg ts o = Some (ts', out) -> (forall t', In t' ts' -> small_t t') ->
   exists w', w_step_h deg w o = Some (w', out) /\ winv deg w' ts' /\
-    (forall j hj, j <> target o -> nth_error (whs w) j = Some hj ->
+    (forall j hj, target o <> Some j -> nth_error (whs w) j = Some hj ->
        nth_error (whs w') j = Some hj /\ habs (hp (wst w')) hj = habs (hp (wst w)) hj).
 Proof.
   intros Hd w ts o ts' out Hw Hf Hsm. pose proof Hw as [Hal Hlen Hrel Hctx Hdis Hown Hsep].
-  destruct o as [i|i it|i r]; cbn [f_step w_step_h target] in *.
+  destruct o as [i|i it|i r|i b|]; cbn [f_step w_step_h target] in *.
   - (* Clone *)
     destruct (nth_error ts i) as [t|] eqn:Et; [|discriminate]. inversion Hf; subst ts' out; clear Hf.
     assert (Hil : i < length (whs w)) by (rewrite Hlen; apply nth_error_Some; congruence).
@@ -197,7 +203,7 @@ Proof.
       destruct C1 as [(-> & N1 & ->)|[(-> & -> & E1)|(-> & -> & E1)]]; [|lia|lia].
       apply (Hsep a1 a2 b1 b2 x n A1 A2); [|exact Hx|exact Hn].
       destruct C2 as [(-> & _ & _)|[(_ & -> & _)|(_ & -> & _)]]; [exact Hne|exact N1|exact N1].
-    + intros j hj Hne Hj. cbn [whs wst]. split; [|reflexivity].
+    + intros j hj Hne0 Hj. assert (Hne : j <> i) by congruence. cbn [whs wst]. split; [|reflexivity].
       assert (j < length (whs w)) by (apply nth_error_Some; congruence).
       rewrite nth_error_app1 by lia. rewrite nth_error_set_other by lia. exact Hj.
   - (* ReplaceOrInsert *)
@@ -212,7 +218,8 @@ Proof.
     destruct (h_roi_sim deg Hd (wst w) hd it t h t' _ Hal Hab Hti ltac:(rewrite IFUEL_is; lia) Ei) as (s' & hd' & E & Hab' & Hcx & _ & Hg' & Hstep).
     rewrite E. eexists. split; [reflexivity|].
     assert (Hsm' : small_t t') by (apply Hsm; unfold set_at; apply in_or_app; right; left; reflexivity).
-    apply (write_step deg w ts i hd t s' hd' t' Hw Eh Et Hab'); [exists (contents h' t'); apply refines_of_tinv; [exact Hti'|lia|exact Hsm']|exact Hcx|exact Hg'|exact Hstep].
+    destruct (write_step deg w ts i hd t s' hd' t' Hw Eh Et Hab') as [W1 W2]; [exists (contents h' t'); apply refines_of_tinv; [exact Hti'|lia|exact Hsm']|exact Hcx|exact Hg'|exact Hstep|].
+    split; [exact W1|]. intros j hj Hne Hj. apply W2; [congruence|exact Hj].
   - (* Delete / DeleteMin / DeleteMax *)
     destruct (nth_error ts i) as [t|] eqn:Et; [|discriminate].
     destruct (itree_delete deg t r) as [[t' out']|] eqn:Ei; [|discriminate]. inversion Hf; subst ts' out; clear Hf.
@@ -225,7 +232,49 @@ Proof.
     destruct (h_delete_sim deg Hd (wst w) hd r t h t' _ Hal Hab Hti ltac:(rewrite IFUEL_is; lia) Ei) as (s' & hd' & E & Hab' & Hcx & Hg' & Hstep).
     rewrite E. eexists. split; [reflexivity|].
     assert (Hsm' : small_t t') by (apply Hsm; unfold set_at; apply in_or_app; right; left; reflexivity).
-    apply (write_step deg w ts i hd t s' hd' t' Hw Eh Et Hab'); [exists (contents h' t'); apply refines_of_tinv; [exact Hti'|lia|exact Hsm']|exact Hcx|exact Hg'|exact Hstep].
+    destruct (write_step deg w ts i hd t s' hd' t' Hw Eh Et Hab') as [W1 W2]; [exists (contents h' t'); apply refines_of_tinv; [exact Hti'|lia|exact Hsm']|exact Hcx|exact Hg'|exact Hstep|].
+    split; [exact W1|]. intros j hj Hne Hj. apply W2; [congruence|exact Hj].
+  - (* Clear *)
+    destruct (nth_error ts i) as [t|] eqn:Et; [|discriminate]. inversion Hf; subst ts' out; clear Hf.
+    assert (Hil : i < length (whs w)) by (rewrite Hlen; apply nth_error_Some; congruence).
+    destruct (nth_error (whs w) i) as [hd|] eqn:Eh; [|apply nth_error_None in Eh; lia].
+    destruct (h_clear_sim (wst w) hd b Hal) as (Hg' & Hab' & Hcx & Hstep).
+    destruct (h_clear (wst w) hd b) as [s' hd'] eqn:Ec. cbn [fst snd] in *.
+    eexists. split; [reflexivity|].
+    destruct (write_step deg w ts i hd t s' hd' iempty Hw Eh Et Hab') as [W1 W2]; [exists []; apply refines_empty|exact Hcx|exact Hg'|exact Hstep|].
+    split; [exact W1|]. intros j hj Hne Hj. apply W2; [congruence|exact Hj].
+  - (* NewWithFreeList on the shared free list *)
+    inversion Hf; subst ts' out; clear Hf.
+    set (hn := {| hroot := None; hctx := wctx w; hlen := 0%Z |}).
+    eexists. split; [reflexivity|].
+    assert (G : forall j hj, nth_error (whs w ++ [hn]) j = Some hj ->
+              (j < length (whs w) /\ nth_error (whs w) j = Some hj) \/ (j = length (whs w) /\ hj = hn)).
+    { intros j hj Hj. destruct (Nat.lt_ge_cases j (length (whs w))) as [Hlt|Hge].
+      - rewrite nth_error_app1 in Hj by lia. left. auto.
+      - rewrite nth_error_app2 in Hj by lia. destruct (j - length (whs w)) as [|d] eqn:Ed; [|destruct d; discriminate].
+        cbn in Hj. inversion Hj. right. split; [lia|reflexivity]. }
+    split; [constructor; cbn [wst wctx whs]|].
+    + exact Hal.
+    + rewrite !app_length, Hlen. reflexivity.
+    + intros j hj tj Hj Htj. destruct (G j hj Hj) as [(Hlt & Hj0)|(-> & ->)].
+      * rewrite nth_error_app1 in Htj by lia. apply (Hrel j hj tj Hj0 Htj).
+      * rewrite nth_error_app2 in Htj by lia. rewrite Hlen, Nat.sub_diag in Htj. cbn in Htj. inversion Htj; subst tj.
+        split; [reflexivity|exists []; apply refines_empty].
+    + intros j hj Hj. destruct (G j hj Hj) as [(_ & Hj0)|(_ & ->)]; [pose proof (Hctx j hj Hj0); lia|cbn; lia].
+    + intros j1 j2 h1 h2 H1 H2 Hne.
+      destruct (G j1 h1 H1) as [(L1 & A1)|(-> & ->)]; destruct (G j2 h2 H2) as [(L2 & A2)|(-> & ->)].
+      * apply (Hdis j1 j2 h1 h2 A1 A2 Hne).
+      * pose proof (Hctx j1 h1 A1). cbn. lia.
+      * pose proof (Hctx j2 h2 A2). cbn. lia.
+      * congruence.
+    + intros x n Hx. pose proof (Hown x n Hx). lia.
+    + intros j1 j2 h1 h2 x n H1 H2 Hne Hx Hn.
+      destruct (G j2 h2 H2) as [(L2 & A2)|(-> & ->)]; [|destruct Hx].
+      destruct (G j1 h1 H1) as [(L1 & A1)|(-> & ->)].
+      * apply (Hsep j1 j2 h1 h2 x n A1 A2 Hne Hx Hn).
+      * pose proof (Hown x n Hn). cbn. lia.
+    + intros j hj _ Hj. cbn [whs wst]. split; [|reflexivity].
+      assert (j < length (whs w)) by (apply nth_error_Some; congruence). rewrite nth_error_app1 by lia. exact Hj.
 Qed.
 
 (* ---------------- every history ---------------- *)
@@ -265,10 +314,14 @@ Proof.
 Qed.
 
 (* from the empty tree *)
+Corollary h_history_from_init deg k : 2 <= deg -> forall ops ts' outs,
+  f_run deg [iempty] ops = Some (ts', outs) -> f_small deg [iempty] ops ->
+  exists w', h_run deg (world_init k) ops = Some (w', outs) /\ winv deg w' ts'.
+Proof. intros Hd ops ts' outs. apply (h_history deg Hd ops (world_init k) [iempty] ts' outs (winv_init deg k)). Qed.
 Corollary h_history_from_empty deg : 2 <= deg -> forall ops ts' outs,
   f_run deg [iempty] ops = Some (ts', outs) -> f_small deg [iempty] ops ->
   exists w', h_run deg world0 ops = Some (w', outs) /\ winv deg w' ts'.
-Proof. intros Hd ops ts' outs. apply (h_history deg Hd ops world0 [iempty] ts' outs (winv0 deg)). Qed.
+Proof. intros Hd. apply (h_history_from_init deg FLCAP Hd). Qed.
 
 (* ---------------- what the invariant says ---------------- *)
 (* abstraction: every handle stands for its functional tree, which satisfies the B-tree invariant *)
@@ -284,7 +337,7 @@ Qed.
 Theorem h_write_isolated deg : 2 <= deg -> forall w ts o ts' out w',
   winv deg w ts -> f_step deg ts o = Some (ts', out) -> (forall t', In t' ts' -> small_t t') ->
   w_step_h deg w o = Some (w', out) ->
-  forall j hj, j <> target o -> nth_error (whs w) j = Some hj ->
+  forall j hj, target o <> Some j -> nth_error (whs w) j = Some hj ->
     nth_error (whs w') j = Some hj /\ habs (hp (wst w')) hj = habs (hp (wst w)) hj.
 Proof.
   intros Hd w ts o ts' out w' Hw Hf Hsm Hstep. destruct (w_step_sim deg Hd w ts o ts' out Hw Hf Hsm) as (w1 & E1 & _ & Hiso).
